@@ -29,8 +29,13 @@ META = {
              "V_from_machines), then A1 holds, so same-round agreement of two mirrors holds with no hypothesis on correct validators' "
              "votes left (C03_mirrors_agree_same_round_composed); the bridge is shown necessary per key and store "
              "(C03_A1_needs_one_store_refuted, C03_A1_from_signer_calls_refuted). A2/A3 remain hypotheses: in gordian they are "
-             "obligations of the application's consensus strategy, which the engine does not enforce. Not mechanised: crash/restart "
-             "in the mirror composition; liveness is not claimed.",
+             "obligations of the application's consensus strategy, which the engine does not enforce. CRASHES, RESTARTS, LOCAL ACTIONS "
+             "(Properties/C03MirrorX.v): the agreement theorems are re-derived from the invariant bundle alone (chain, certificate, "
+             "good headers) and that bundle is proved over histories with crashes after every store write and restarts "
+             "(C03X_mirrors_agree_after_crashes, same-round version composed with the state machine: no hypothesis on correct "
+             "validators' votes) and, under the side condition that the state machine's own proposed header is well formed (shown "
+             "necessary: C03X_local_ph_condition_needed_refuted, two nodes committing different blocks), over histories with the "
+             "local validator's own votes and proposals. Liveness is not claimed.",
     "note": "Trusted: Coq kernel; translator for math.go (cross-checked by C18); the Go harness (network scheduler, "
             "lock-respecting strategy, Byzantine signer) and the reconstruction of model traces from observed votes; Go "
             "scheduling/timers. No axioms (all Print Assumptions: closed under the global context).",
@@ -125,12 +130,30 @@ def encode_run(idx, obs):
     streams = []   # per correct node: list of (h, id, round)
     for i in correct:
         streams.append([(int(e[0]), ids.get(e[1]), int(e[2])) for e in obs["streams"].get(str(i), [])])
+    # heights every correct node has finalized (see below: only those are complete in the logs); agreement itself is
+    # judged by the monitors on the FULL streams and stores before this cut (mon_streams / mon_all use obs directly)
+    full_streams = streams
+    h_complete = min([max([h for h, _, _ in st] or [0]) for st in streams] or [0])
+    # agreement and contiguity on the FULL streams (every height any node finalized), decided here; the Coq judge below
+    # repeats it on the complete heights together with the hypotheses and the model's explanation of each stream
+    by_h = {}
+    full_agree = True
+    for st in full_streams:
+        hs = [h for h, _, _ in st]
+        if hs != list(range(hs[0], hs[0] + len(hs))) if hs else False:
+            full_agree = False
+        for h, b, _ in st:
+            if by_h.setdefault(h, b) != b:
+                full_agree = False
+    streams = [[e for e in st if e[0] <= h_complete] for st in streams]
     stores = []
     certs = []     # signer masks of the commit certificates kept in the CommittedHeaderStores
     nocert = 0
     for i in correct:
-        stores.append([(int(e[0]), ids.get(e[1])) for e in obs.get("stores", {}).get(str(i), [])])
+        stores.append([(int(e[0]), ids.get(e[1])) for e in obs.get("stores", {}).get(str(i), []) if int(e[0]) <= h_complete])
         for e in obs.get("stores", {}).get(str(i), []):
+            if int(e[0]) > h_complete:
+                continue
             if len(e) >= 4 and e[3]:
                 certs.append(sum(1 << int(x) for x in set(e[3])))
             else:
@@ -142,7 +165,11 @@ def encode_run(idx, obs):
                 continue
             kind = "Prevote" if d[2] == "prevote" else "Precommit"
             votes.append((kind, int(d[0]), int(d[1]), ids.get(d[3]), i))
-    votes = sorted(set(votes))
+    # The harness reads the nodes' decision logs one after the other while the engines are still running: for a height
+    # that not every correct node had finalized when its log was read, a vote of node j (read later) can rest on votes of
+    # node i that were cast after i's log was read. Only heights every correct node has finalized are complete (a node
+    # casts no vote for a height after finalizing it), so the hypotheses are evaluated on those.
+    votes = sorted(set(v for v in votes if v[1] <= h_complete))
     # model traces: per node, for each finalization (h, b, r): deliver the precommits for (h, r, b) that correct
     # validators really signed plus one from every Byzantine index (arbitrary Byzantine votes are allowed by the
     # model), then Finalize r b, then Enter (h+1) if another finalization follows.
@@ -170,7 +197,7 @@ def encode_run(idx, obs):
     t.append("Definition %scerts : list N := %s." % (p, coq_list(str(x) for x in sorted(set(certs)))))
     t.append("Definition %sout := Eval vm_compute in judge %svals %sbyz %sV %sstreams %sstores %scerts %straces." % (p, p, p, p, p, p, p, p))
     t.append("Print %sout." % p)
-    info = {"ids": ids.m, "streams": streams, "stores": stores, "votes": len(votes), "certs": len(certs), "nocert": nocert,
+    info = {"ids": ids.m, "streams": streams, "stores": stores, "full_agree": full_agree, "h_complete": h_complete, "votes": len(votes), "certs": len(certs), "nocert": nocert,
             "rounds_gt0": sum(1 for s in streams for e in s if e[2] > 0)}
     return "\n".join(t) + "\n", info
 
@@ -251,6 +278,9 @@ def main(argv):
         # composed agreement theorems carry no hypothesis about correct validators' votes except unforgeability
         c.translate(only=["Gen/StepSM.v"])
         proved = c.prove("C03Compose") and proved
+        # ... and the mirror-level agreement over the larger closures: crashes after every store write, restarts, round
+        # entrances, reads and the local validator's own votes and proposed headers (Properties/C03MirrorX.v)
+        proved = c.prove("C03MirrorX") and proved
 
     mark("translate+prove")
     # 3. real engines
@@ -335,7 +365,7 @@ def main(argv):
                     c.fail_obligation("cases-parse " + name, "no verdict parsed for run %d" % idx, replay)
                 continue
             replay["verdict"] = v
-            if not v["mon_streams"]:
+            if not v["mon_streams"] or not info.get("full_agree", True):
                 state["impl_failure"] = True
                 c.report("disagreement-%s" % sc, "correct nodes' finalize streams differ at a height or are not contiguous "
                          "(scenario %s): %s" % (name, json.dumps(obs.get("streams"))[:400]), replay)
